@@ -1343,14 +1343,20 @@ func c17r7(c *an.Ctx) {
 						}
 						return false
 					}
+					// a memo keyed by the descriptor itself (the pointer identifies service and method) is still a
+					// function of the argument
+					byDescriptor := func(key ssa.Value) bool {
+						p, isParam := key.(*ssa.Parameter)
+						return isParam && isDesc(p.Type())
+					}
 					switch x := in.(type) {
 					case *ssa.MapUpdate:
-						if stateful(x.Map) {
-							bad, where = "writes a map kept in the generator", in
+						if stateful(x.Map) && !byDescriptor(x.Key) {
+							bad, where = "writes a map kept in the generator under a key that is not the descriptor itself", in
 						}
 					case *ssa.Lookup:
-						if _, isMap := x.X.Type().Underlying().(*types.Map); isMap && stateful(x.X) {
-							bad, where = "reads a map kept in the generator", in
+						if _, isMap := x.X.Type().Underlying().(*types.Map); isMap && stateful(x.X) && !byDescriptor(x.Index) {
+							bad, where = "reads a map kept in the generator under a key that is not the descriptor itself", in
 						}
 					case *ssa.Store:
 						if fa, ok := x.Addr.(*ssa.FieldAddr); ok && stateful(fa) {
